@@ -44,7 +44,7 @@ func honestProofBytes(seed int64, which int) []byte {
 	}
 	b, _, err := implProofBytes(c, s)
 	if err != nil || len(b) != 576 {
-		panic(fmt.Sprintf("C10: cannot build an honest proof: %v len=%d", err, len(b)))
+		panic(core.ImplFault{API: "CreateMultiProof / MultiProof.Write", Input: "honest statement " + s.String(), Got: fmt.Sprintf("err=%v, %d proof bytes (576 expected)", err, len(b))})
 	}
 	return b
 }
@@ -553,7 +553,7 @@ func c10Units(ctx *core.Ctx) []core.Unit {
 		}
 		var mp multiproof.MultiProof
 		if err := mp.Read(bytes.NewReader(honest)); err != nil {
-			panic("C10: honest proof does not parse: " + err.Error())
+			panic(core.ImplFault{API: "MultiProof.Read", Input: "the 576 bytes written by MultiProof.Write for an honest proof", Got: "error: " + err.Error()})
 		}
 		for k := 0; k < 576; k++ {
 			for _, short := range []bool{false, true} {
